@@ -185,6 +185,8 @@ benign("c14-benign-sorted-twice", "C14", PS, "            for pname in sorted(ca
 benign("c14-benign-set-membership-loop", "C14", OPT, "            if t2_node not in output_transposes:\n                continue\n", "            if t2_node not in output_transposes:\n                continue\n            n_inverse = 0\n            for _t in output_transposes:\n                n_inverse += 1\n")
 
 # ----------------------------------------------------------------------------- C01
+mutant("c01-rounding-method-read-but-ignored", "C01", "jax2onnx/plugins/jax/lax/round.py", "        if int(method) == int(jax.lax.RoundingMethod.TO_NEAREST_EVEN):", "        if False:", expect="R-C01e")
+mutant("c01-integer-pow-exponent-dead-local", "C01", "jax2onnx/plugins/jax/lax/integer_pow.py", "        exponent = int(params.get(\"y\", 2))", "        _declared_exponent = int(params.get(\"y\", 2))\n        exponent = 2", expect="R-C01e")
 mutant("c01-lt-operands-swapped", "C01", "jax2onnx/plugins/jax/lax/lt.py", "ctx.builder.Less(lhs_val, rhs_val,", "ctx.builder.Less(rhs_val, lhs_val,", expect="R-C01d")
 mutant("c01-sub-operands-swapped", "C01", "jax2onnx/plugins/jax/lax/sub.py", "ctx.builder.Sub(a_val, b_val, _outputs=[output_name])", "ctx.builder.Sub(b_val, a_val, _outputs=[output_name])", expect="R-C01d")
 mutant("c01-div-operands-swapped", "C01", "jax2onnx/plugins/jax/lax/div.py", "ctx.builder.Div(lhs_val, rhs_val, _outputs=[output_name])", "ctx.builder.Div(rhs_val, lhs_val, _outputs=[output_name])", expect="R-C01d")
